@@ -133,7 +133,8 @@ def curated_cases():
     rules = {'t:proj': 'project_id:%(project_id)s', 't:notproj': 'not project_id:%(project_id)s',
              't:dom': 'domain_id:%(project_id)s', 't:user': 'user_id:%(user_id)s', 't:adm': 'is_admin:True',
              't:notadm': 'not is_admin:True', 't:admfalse': 'is_admin:False', 't:sys': 'system_scope:all',
-             't:none': 'project_id:None', 't:domnone': 'domain_id:None', 't:alias': 'rule:t:proj', 'helper': 'role:member'}
+             't:none': 'project_id:None', 't:domnone': 'domain_id:None', 't:alias': 'rule:t:proj', 'helper': 'role:member',
+             't:proj:forced': '!', 't:adm:sub:deep': '@'}
     out = []
     for scope in ('project', 'domain', 'system', 'none'):
         for is_admin in (False, True):
@@ -220,7 +221,11 @@ def run(run, binfo):
                 if v == 'passed':
                     run.nontrivial.add((i, k))
         # a single requested rule: defined, undefined with / without default
-        for req in [rng.choice(list(rules)), 'no:such:rule']:
+        reqs_ = [rng.choice(list(rules)), 'no:such:rule']
+        prefixes = sorted({k.rsplit(':', 1)[0] for k in rules if k.count(':') >= 1})
+        if prefixes:
+            reqs_.append(rng.choice(prefixes))       # a defined or undefined name that other names extend by ':...'
+        for req in reqs_:
             verdicts, crash = run_tool(pp, ap, req, is_admin, tp)
             run.evaluations += 1
             mreqs.append([16, [[S(k), enc_jv(v)] for k, v in rules.items()], enc_jv(token), is_admin,
